@@ -26,11 +26,12 @@ RULE = ('cases = boolean tables (K scopes of DESIGN 3.4) with reverse-alphabetic
         'transpose (two constructions); every duplicated row / column (placed last and first; 8 sampled beyond 8 names) '
         'and an added full column; all pairs of concepts (seeded sample of 300 pairs beyond 24 concepts); '
         'non-trivial = table with >= 2 concepts, distinct up to row/column permutation')
-SCOPE = {'quick': 'all tables <= 3x3 (3x3: one table per row/column permutation class; all 36 row x column permutations '
-                  'each, which reaches every other table of the class up to label names), structured families <= 4, 40 random <= 6x6, '
-                  '3 wide tables (> 64 bit), 3 random permutations',
-         'thorough': 'all tables with n*m <= 12 (n,m <= 8), structured families <= 6, 400 random <= 7x7, 6 wide tables, '
-                     '6 random permutations'}
+SCOPE = {'quick': 'common.standard_cases quick scope: all tables <= 3x3 (3x3: one table per row/column permutation class; all 36 '
+                  'row x column permutations each, which reaches every other table of the class up to label names), the further '
+                  'small/sibling/structured (<= 4)/random (<= 6x6) tables of that scope, 3 wide tables (> 64 bit); beyond 3x3: '
+                  '4 fixed + 3 random permutations',
+         'thorough': 'common.standard_cases thorough scope: all tables with n*m <= 12 (n,m <= 8), sibling cases, structured families '
+                     '<= 6, 400 random <= 7x7, 6 wide tables; all permutations when n,m <= 3, else 4 fixed + 6 random permutations'}
 
 nontrivial = common.nontrivial_table
 
